@@ -77,6 +77,8 @@ func chanKind(e ast.Expr) (isChan, known bool) {
 	return isChan, true
 }
 
+var stmtMode bool
+
 func vs(name string) ast.Expr {
 	used = true
 	return &ast.SelectorExpr{X: ast.NewIdent("vsched"), Sel: ast.NewIdent(name)}
@@ -123,7 +125,33 @@ func pre(c *astutil.Cursor) bool {
 	return true
 }
 
+// withPoints puts a scheduling point in front of every statement of a list (statement mode, see main).
+func withPoints(list []ast.Stmt) []ast.Stmt {
+	out := make([]ast.Stmt, 0, 2*len(list))
+	for _, st := range list {
+		counts["stmt"]++
+		out = append(out, &ast.ExprStmt{X: call(vs("Atomic"), &ast.BasicLit{Kind: token.INT, Value: "1"})}, st)
+	}
+	return out
+}
+
 func post(c *astutil.Cursor) bool {
+	if stmtMode {
+		switch x := c.Node().(type) {
+		case *ast.BlockStmt:
+			if _, isSwitchBody := c.Parent().(*ast.SwitchStmt); !isSwitchBody {
+				if _, isTS := c.Parent().(*ast.TypeSwitchStmt); !isTS {
+					if _, isSel := c.Parent().(*ast.SelectStmt); !isSel {
+						x.List = withPoints(x.List)
+					}
+				}
+			}
+		case *ast.CaseClause:
+			x.Body = withPoints(x.Body)
+		case *ast.CommClause:
+			x.Body = withPoints(x.Body)
+		}
+	}
 	switch x := c.Node().(type) {
 	case *ast.SendStmt:
 		counts["send"]++
@@ -304,8 +332,16 @@ func rewriteSelect(x *ast.SelectStmt) ast.Stmt {
 }
 
 func main() {
+	// instrument -stmt in.go out.go: statement mode. On top of the usual translation every statement of every
+	// function body is preceded by vsched.Atomic(1), an operation on one pseudo object standing for "plain
+	// memory": the explorer then interleaves the file's code at statement granularity (and, all points being
+	// operations on the same object, the order of the statements of different threads is part of the state).
+	if len(os.Args) == 4 && os.Args[1] == "-stmt" {
+		stmtMode = true
+		os.Args = append(os.Args[:1], os.Args[2:]...)
+	}
 	if len(os.Args) != 3 {
-		fmt.Fprintln(os.Stderr, "usage: instrument in.go out.go")
+		fmt.Fprintln(os.Stderr, "usage: instrument [-stmt] in.go out.go")
 		os.Exit(2)
 	}
 	fset = token.NewFileSet()
